@@ -238,8 +238,8 @@ def spec(tier, seed, repo):
         "nts_probes_judged": 200, "dss_probes_judged": 200,
         "nts_probes_reference_valid": 10, "dss_probes_reference_valid": 10,
         # one altered broadcast at enumerated positions of the signing phase
-        "dss_bcalter_fired": 14 if q else 130, "nts_bcalter_fired": 6 if q else 20,
-        "dss_completed_fmode_bcalter": 8 if q else 80,
+        "dss_bcalter_fired": 20 if q else 130, "nts_bcalter_fired": 6 if q else 20,
+        "dss_completed_fmode_bcalter": 12 if q else 80,
     }
     return dict(
         stages=[stage("w_c16", repo, nshards=16, case_timeout=600 if q else 2400,
@@ -256,7 +256,7 @@ def spec(tier, seed, repo):
             "faulty parties use the library's simulate_faulty_behaviour switch (coins of the library, or scripted "
             "top-level coins of DSS::Sign to reach later drop-out points); they keep serving the reliable broadcast",
             "fault mode bcalter: honest code, the payload of the k-th own reliable broadcast of the signing phase is "
-            "altered by +1 for every recipient (every k for n = 4 in the thorough tier, 16 spread positions quick)",
+            "altered by +1 for every recipient (every k for n = 4 in the thorough tier, 24 spread positions quick)",
             "a deviating party is only placed where the broadcast tolerates it (3t < n)",
             "runs in which Sign returns false are recorded, not judged",
             "512/160-bit groups",
